@@ -847,7 +847,9 @@ class World:
         mode = self.validator_policy.get("mode", "accept")
         if kind == "VALIDATE_IOERROR":
             self.validator_calls.append((self.director.op, key, "ioerror"))
-            raise IOError("injected: validator cannot read")
+            # IOError is OSError: a validator that cannot read its file raises any of its subclasses
+            raise {"fnf": FileNotFoundError, "perm": PermissionError, "timeout": TimeoutError, "isdir": IsADirectoryError}.get(
+                self.knobs.get("val_ioerror_class"), IOError)("injected: validator cannot read")
         if kind == "VALIDATE_RAISE":
             # a bug in the user's validator: not an IOError, so the request fails; entries rejected earlier in
             # the same request must not be left behind as servable hits
@@ -971,6 +973,10 @@ class World:
     # ------------------------------------------------------------- cache API
     def _open_cache(self, size_bytes, evict, parallel, allow_missing):
         size_gb = size_bytes / 1e9
+        if self.knobs.get("size_arg_int_zero"):
+            # the caller passes a whole number of GB as an int (the library's own default is the int 5): here 0, "keep
+            # nothing beyond the current request" - every request then enlarges the limit to fit
+            size_gb = 0
         if self.knobs.get("api", "object") == "module":
             self.fc._ACTIVE_FILE_CACHES.clear()
             self.fc.create_cache(CACHE_NAME, self.cache_arg, cache_size_GB=size_gb, do_cache_eviction_on_startup=evict,
@@ -1073,6 +1079,12 @@ class World:
         warnings_ctx.__enter__()
         # (a process may run with warnings turned into errors: python -W error, pytest filterwarnings=error)
         warnings.simplefilter("error" if (self.prop == "C19" and self.knobs.get("warnings_error")) else "ignore")
+        # the package logger: WARNING by default, DEBUG in a process whose user called tools.log.set_level("debug") /
+        # set_log_to_file(..., DEBUG) - an ambient setting like the time zone; it must not change what the cache does
+        import logging as _logging
+        _plog = getattr(self.co, "logger", None) or _logging.getLogger("ocean_science_utilities.tools")
+        _plog_level = _plog.level
+        _plog.setLevel(_logging.DEBUG if self.knobs.get("log_debug") else _logging.WARNING)
         self.sched.attach_client()
         self._tracer = None
         if self.knobs.get("fine_grained"):
@@ -1097,6 +1109,7 @@ class World:
                 self._reap_quietly()
             finally:
                 self.sched.detach_client()
+                _plog.setLevel(_plog_level)
                 warnings_ctx.__exit__(None, None, None)
                 if self.canary is not None:
                     self.canary.revert(self)
